@@ -33,6 +33,22 @@ Definition encode (c : N) : list N :=
   else if c <? 65536 then [224 + c / 4096; 128 + (c / 64) mod 64; 128 + c mod 64]
   else [240 + c / 262144; 128 + (c / 4096) mod 64; 128 + (c / 64) mod 64; 128 + c mod 64].
 
+(* the same with shifts and masks (what the exhaustive check evaluates: much cheaper than division) *)
+Definition encode_f (c : N) : list N :=
+  if c <? 128 then [c]
+  else if c <? 2048 then [192 + N.shiftr c 6; 128 + N.land c 63]
+  else if c <? 65536 then [224 + N.shiftr c 12; 128 + N.land (N.shiftr c 6) 63; 128 + N.land c 63]
+  else [240 + N.shiftr c 18; 128 + N.land (N.shiftr c 12) 63; 128 + N.land (N.shiftr c 6) 63; 128 + N.land c 63].
+
+Lemma encode_f_eq c : encode_f c = encode c.
+Proof.
+  assert (L : forall a, N.land a 63 = a mod 64) by (intros a; apply (N.land_ones a 6)).
+  assert (S6 : forall a, N.shiftr a 6 = a / 64) by (intros a; apply (N.shiftr_div_pow2 a 6)).
+  assert (S12 : forall a, N.shiftr a 12 = a / 4096) by (intros a; apply (N.shiftr_div_pow2 a 12)).
+  assert (S18 : forall a, N.shiftr a 18 = a / 262144) by (intros a; apply (N.shiftr_div_pow2 a 18)).
+  unfold encode_f, encode. rewrite !L, S6, S12, S18. reflexivity.
+Qed.
+
 Definition scalar (c : N) : bool := (c <? 1114112) && negb ((55296 <=? c) && (c <=? 57343)).
 
 Section Decoder.
@@ -89,7 +105,7 @@ Section Decoder.
   Qed.
 
   Definition ok (c : N) : bool :=
-    if scalar c then dres_eqb (decode (encode c)) (DOk c (length (encode c))) else true.
+    if scalar c then dres_eqb (decode (encode_f c)) (DOk c (length (encode_f c))) else true.
 
   (* every value in [s, s + n) passes *)
   Fixpoint range_ok (n : nat) (s : N) : bool :=
@@ -141,7 +157,7 @@ Section Decoder.
     { unfold scalar in Hs. apply andb_prop in Hs as [H _]. apply N.ltb_lt. exact H. }
     assert (H272 : N.of_nat 272 = 272) by (vm_compute; reflexivity).
     pose proof (blocks_ok_sound 272 0 Hall c (N.le_0_l c) ltac:(rewrite H272; lia)) as Hok.
-    unfold ok in Hok. rewrite Hs in Hok. apply dres_eqb_eq. exact Hok.
+    unfold ok in Hok. rewrite Hs, encode_f_eq in Hok. apply dres_eqb_eq. exact Hok.
   Qed.
 
   (* a whole text *)
